@@ -15,7 +15,9 @@ RULE = (
     "(13 530 bands; every 3rd edge in quick) for the bin-count/centre clause; full product of consistent events "
     "(emergence angle x decay length incl. 0, the foot of the perpendicular, lengths giving decay altitude 0, 1e-9, 5, "
     "10-, 10, 10+, 15 km x view angle x path length x shower energy) x detector altitude x ionosphere on/off x antenna "
-    "counts 1..64 x field scale factors, with every random number owned and keyed to its event. Distinct by (band), "
+    "counts 1..64 x field scale factors, with every random number owned and keyed to its event; call histories: ONE EASRadio object on one live "
+    "configuration changed in place between calls (band, altitude, ionosphere, antenna count; all step sequences up to depth 2 quick / 3 thorough) "
+    "against fresh objects. Distinct by (band), "
     "(event class in/out of the 0-10 km range, zero decay length, altitude, ionosphere) and (scale factor / antenna count)."
 )
 ASSUMPTIONS = [
@@ -62,7 +64,7 @@ def make_cfg(alt, low, high, iono=True, nant=10):
     return sim.make_config(altitude=alt, extra=extra)
 
 
-def call_radio(cfg, evs, tkey, scaleE=1.0):
+def call_radio(cfg, evs, tkey, scaleE=1.0, obj=None):
     """evs: list of event tuples; tkey: per-event dict of random numbers keyed by event tuple index"""
     from nuspacesim.simulation.eas_radio.radio import EASRadio
 
@@ -87,7 +89,7 @@ def call_radio(cfg, evs, tkey, scaleE=1.0):
     stub = own.RngStub(fn=fn)
     ins = [beta.copy(), altDec.copy(), lenDec.copy(), theta.copy(), L.copy(), E.copy()]
     with stub.installed(), own.quiet(), np.errstate(all="ignore"):
-        ef = EASRadio(cfg)(beta, altDec, lenDec, theta, L, E * scaleE)
+        ef = (EASRadio(cfg) if obj is None else obj)(beta, altDec, lenDec, theta, L, E * scaleE)
     same = all(a.tobytes() == b.tobytes() for a, b in zip([beta, altDec, lenDec, theta, L, E], ins))
     return np.asarray(ef), inr, same, len(stub.calls)
 
@@ -126,6 +128,63 @@ def judge_band(low, high):
     except Exception as ex:
         out.append(("snr_computable", "snr", f"{type(ex).__name__}: {ex}"))
     return out
+
+
+SCAN_STEPS = [("band", 30, 300), ("band", 300, 1000), ("band", 330, 600), ("band", 30, 80), ("alt", 33.0), ("alt", 525.0), ("iono", False), ("nant", 4)]
+
+
+def judge_scan(seq):
+    """ONE EASRadio object on ONE live configuration that is changed in place between calls (a band / altitude scan):
+    after every step the fields equal those of a fresh object built from a fresh configuration with the same values, bin
+    for bin, and the SNR is computable and finite"""
+    from nuspacesim.simulation.eas_radio.radio import EASRadio
+
+    state = {"low": 30.0, "high": 300.0, "alt": 525.0, "iono": True, "nant": 10}
+    cfg = make_cfg(state["alt"], state["low"], state["high"], state["iono"], state["nant"])
+    obj = EASRadio(cfg)
+    evs = [(math.radians(10), 20.0, alt_of(20.0, math.radians(10)), 0.02, 1500.0, 1.0), (math.radians(5), 500.0, alt_of(500.0, math.radians(5)), 0.03, 1500.0, 3.0), (math.radians(3), 900.0, 12.0, 0.02, 1500.0, 1.0)]
+    tkey = [0.3, 0.7, 0.1]
+    for step in range(len(seq) + 1):
+        if step:
+            op = SCAN_STEPS[seq[step - 1]]
+            if op[0] == "band":
+                state["low"], state["high"] = float(op[1]), float(op[2])
+                r = cfg.detector.radio
+                # (order of the two assignments chosen so that low < high holds throughout)
+                if state["low"] >= r.high_frequency:
+                    r.high_frequency = state["high"]
+                    r.low_frequency = state["low"]
+                else:
+                    r.low_frequency = state["low"]
+                    r.high_frequency = state["high"]
+            elif op[0] == "alt":
+                state["alt"] = op[1]
+                cfg.detector.initial_position.altitude = op[1]
+            elif op[0] == "iono":
+                state["iono"] = op[1]
+                cfg.simulation.ionosphere.enable = op[1]
+                cfg.simulation.ionosphere.total_electron_content = -1.0
+            elif op[0] == "nant":
+                state["nant"] = op[1]
+                cfg.detector.radio.nantennas = op[1]
+        where = f"after {[SCAN_STEPS[i] for i in seq[:step]]}"
+        try:
+            got, _, _, _ = call_radio(cfg, evs, tkey, obj=obj)
+        except Exception as ex:
+            return [("scan_no_exception", f"{where}: fields", f"{type(ex).__name__}: {str(ex)[:100]}")]
+        fresh_cfg = make_cfg(state["alt"], state["low"], state["high"], state["iono"], state["nant"])
+        want, _, _, _ = call_radio(fresh_cfg, evs, tkey)
+        if got.shape != want.shape:
+            return [("scan_bin_count", f"{where}: {list(want.shape)}", list(got.shape))]
+        if got.tobytes() != want.tobytes():
+            return [("scan_fields_equal_fresh_object", f"{where}: fields of a fresh object", f"max rel diff {float(np.nanmax(np.abs(got - want) / (np.abs(want) + 1e-300))):.3g}")]
+        try:
+            s, s2 = snr_of(cfg, got), snr_of(fresh_cfg, want)
+        except Exception as ex:
+            return [("snr_computable", f"{where}: snr", f"{type(ex).__name__}: {str(ex)[:100]}")]
+        if s.shape != (len(evs),) or not np.all(np.isfinite(s)) or s.tobytes() != s2.tobytes():
+            return [("scan_snr", f"{where}: {s2.tolist()}", s.tolist())]
+    return []
 
 
 def judge_events(alt, iono, band, evs, tier):
@@ -234,6 +293,18 @@ def run(ctx):
             ctx.violation(c, {"kind": "band", "low": low, "high": high}, e, o)
     ctx.cov["bands"] = nb
     ctx.sample({"kind": "band", "low": 30, "high": 300, "bins": 27})
+    # call histories on one EASRadio object whose configuration is changed in place between calls
+    depth = 2 if tier == "quick" else 3
+    nscan = 0
+    for d in range(1, depth + 1):
+        for seq in itertools.product(range(len(SCAN_STEPS)), repeat=d):
+            if any(a == b for a, b in zip(seq, seq[1:])):
+                continue
+            nscan += 1
+            ctx.tick(3 * (d + 1), ("scan",) + tuple(seq))
+            for c, e, o in judge_scan(seq):
+                ctx.violation(c, {"kind": "scan", "seq": list(seq)}, e, o)
+    ctx.cov["configuration_scan_histories"] = nscan
     evs = events(tier)
     ctx.cov["events"] = len(evs)
     ne = 0
@@ -271,6 +342,8 @@ def replay(case):
         return [(c, e, o) for c, what, e, o in judge_large_batch(case["N"])]
     if k == "band":
         return judge_band(case["low"], case["high"])
+    if k == "scan":
+        return judge_scan(tuple(case["seq"]))
     if k == "event":
         # the event together with a partner (order clause needs two)
         partner = (math.radians(10), 20.0, alt_of(20.0, math.radians(10)), 1.0, 1500.0, 1.0)
